@@ -1138,14 +1138,16 @@ class SoC(LiteXModule, SoCCoreCompat):
         }[self.bus.standard]
         csr_bridge_name = f"{name}_bridge"
         self.check_if_exists(csr_bridge_name)
-        data_width = self.csr.data_width
+        # The bus side of the bridge is one CSR word per `alignment` bits (what the exported maps assume),
+        # whatever the CSR data width is; the bus adapter converts from/to the SoC bus data width.
+        data_width = self.csr.alignment
         csr_bridge = csr_bridge_cls(
             bus_bridge_cls(
                 address_width = self.bus.address_width,
                 data_width    = data_width),
             bus_csr = csr_bus.Interface(
                 address_width = self.csr.address_width,
-                data_width    = data_width),
+                data_width    = self.csr.data_width),
             register = register)
         self.logger.info("CSR Bridge {} {}.".format(
             colorer(name, color="underline"),
